@@ -152,7 +152,7 @@ def run_table(ctx, si, overridden, rep):
         env.close()
 
 
-def run_history(ctx, steps, rep, fix=None, tamper='nothing'):
+def run_history(ctx, steps, rep, fix=None, tamper='nothing', late=False):
     """One long-lived enforcer decides a sequence of requests; between
     requests the operator may flip [oslo_policy] enforce_scope.  Every
     request must be decided by the table row of the settings in force at
@@ -168,7 +168,19 @@ def run_history(ctx, steps, rep, fix=None, tamper='nothing'):
         shared = [policy.RuleDefault('sys', 'sym:a', scope_types=sys_types),
                   policy.RuleDefault('proj', 'sym:b', scope_types=proj_types),
                   policy.RuleDefault('any', 'sym:c')]
-        enf = env.enforcer(defaults=shared, enforce_scope=True)
+        if late:
+            # the operator's file overrides the scoped policies and is
+            # loaded (a first enforce) BEFORE the service -- a plugin --
+            # registers their defaults: the scope types still come from the
+            # registered default
+            env.write('policy.yaml', {'sys': 'sym:a', 'proj': 'sym:b',
+                                      'early': '@'})
+            enf = env.enforcer(defaults=[policy.RuleDefault('early', '!')],
+                               enforce_scope=True)
+            enf.enforce('early', {}, {'roles': []})
+            enf.register_defaults(shared)
+        else:
+            enf = env.enforcer(defaults=shared, enforce_scope=True)
         other = env.enforcer(defaults=shared, enforce_scope=True)
         trace = []
         for i in range(steps):
@@ -259,6 +271,7 @@ TAMPER = ['nothing', 'caller-list-append', 'caller-list-clear',
 def cubes_history(tier, seed):
     out = [{'steps': 2, 'rep': r, 'tamper': t} for r in REPRS
            for t in TAMPER]
+    out += [{'steps': 2, 'rep': r, 'late': True} for r in REPRS]
     if tier != 'quick':
         out += [{'steps': 3, 'rep': r, 'fix': [n, t]} for r in REPRS
                 for n in ('sys', 'proj', 'any') for t in SCOPES]
